@@ -39,7 +39,8 @@ def run_fuzz_campaigns(check, cid, seed, procs, runs, st):
     jobs = []
     for i in range(procs):
         stats = os.path.join(tmp, 'stats%d.json' % i)
-        cmd = [sys.executable, '-m', 'ppv.fuzz', cid, '--runs', str(runs), '--seed', str(seed * 1000 + i + 1), '--stats', stats]
+        cmd = [sys.executable, '-m', 'ppv.fuzz', cid, '--runs', str(runs), '--seed', str(seed * 1000 + i + 1), '--stats', stats,
+               '--workdir', tmp]
         jobs.append((stats, subprocess.Popen(cmd, cwd=core.VERIF_DIR, stdout=subprocess.DEVNULL, stderr=subprocess.DEVNULL)))
     total = {'campaigns': procs, 'runs_per_campaign': runs, 'executions': 0, 'valid': 0, 'nontrivial': 0, 'violations': 0,
              'status': 'ok'}
@@ -59,6 +60,8 @@ def run_fuzz_campaigns(check, cid, seed, procs, runs, st):
             case = _load_case(s['replay'])
             res = core.safe_oracle(check, case)
             st.record(case, res, 'coverage-guided')
+    import shutil
+    shutil.rmtree(tmp, ignore_errors=True)
     st.evaluations += total['valid']
     st.phase['coverage-guided'] = st.phase.get('coverage-guided', 0) + total['valid']
     return total
